@@ -27,14 +27,18 @@ def guard (field : String) : Option String :=
   else some "?"
 
 /-- code that only ever runs on the RetryClient's task goroutine, by construction: the goroutine body inside
-    SetClient (`$go`), the closures pushed as tasks by the API methods, and the closures that are only ever stored
-    in `retryQueue` (a confined field) and called from there by `Retry`'s task -/
-def taskGoroutineRoots : List String :=
+    SetClient (`$go`) and the closures that are only ever stored in `retryQueue` (a confined field) and called from
+    there by `Retry`'s task … -/
+def explicitTaskClosures : List String :=
   ["(*RetryClient).SetClient$go",
-   "(*RetryClient).Publish$closure", "(*RetryClient).Subscribe$closure", "(*RetryClient).Unsubscribe$closure",
-   "(*RetryClient).Disconnect$closure", "(*RetryClient).Retry$closure", "(*RetryClient).Resubscribe$closure",
    "(*RetryClient).publish$closure", "(*RetryClient).subscribe$closure", "(*RetryClient).unsubscribe$closure",
    "(*RetryClient).retryWithTimeout$closure"]
+
+/-- … plus, read off the regenerated facts: whatever is handed to `pushTask` (closures or method values) and any
+    named function that `SetClient` starts with a `go` statement (the task goroutine itself, should it be given a name) -/
+def taskGoroutineRoots : List String :=
+  explicitTaskClosures ++ Generated.pushTaskArgs ++
+    (Generated.goStarts.filter (fun g => g.1 == "(*RetryClient).SetClient")).map (·.2)
 
 /-- … and every named function all of whose call sites (`Generated.callers`, by name: a superset) lie in such
     code, transitively (helpers may be introduced or renamed freely) -/
